@@ -97,6 +97,9 @@ type RNode struct {
 	Methods []Method `json:"methods,omitempty"`
 	Subs    []*RNode `json:"subs,omitempty"`
 	Sp      int      `json:"sp,omitempty"`
+	// `/path [attrs]:` and `@k = v` lines of the path (written before its methods): inherited by every method below
+	A     Attrs  `json:"a,omitempty"`
+	Annos []Anno `json:"annos,omitempty"`
 }
 
 func (r *RNode) segs() []Seg {
@@ -115,7 +118,7 @@ type Item struct {
 	Val  int64  `json:"val"`
 }
 type Member struct {
-	// type | table | enum | alias | union | ep | event | rest | mixin | sub | anno
+	// type | table | enum | alias | union | ep | event | rest | mixin | sub | anno | view (abstract: Params, Ty = return type)
 	Kind   string   `json:"kind"`
 	Name   string   `json:"name,omitempty"`
 	A      Attrs    `json:"a,omitempty"`
@@ -309,7 +312,10 @@ func rRest(sb *strings.Builder, depth int, r *RNode) {
 			segs = append(segs, spellV(s.Name, r.Sp))
 		}
 	}
-	fmt.Fprintf(sb, "%s/%s:\n", ind, strings.Join(segs, "/"))
+	fmt.Fprintf(sb, "%s/%s%s:\n", ind, strings.Join(segs, "/"), rAttrs(r.A))
+	for _, a := range r.Annos {
+		rAnno(sb, ind+"    ", a)
+	}
 	for _, m := range r.Methods {
 		fmt.Fprintf(sb, "%s    %s%s%s%s:\n", ind, m.Verb, rParams(m.Params), rQuery(m.Query), rAttrs(m.A))
 		rBody(sb, ind+"        ", m.Annos, m.Body)
@@ -376,13 +382,23 @@ func rBlock(sb *strings.Builder, b Block) {
 			rBody(sb, "        ", m.Annos, m.Body)
 		case "event":
 			if m.Dots {
-				fmt.Fprintf(sb, "    <-> %s%s: ...\n", m.Name, rParams(m.Params))
+				fmt.Fprintf(sb, "    <-> %s%s%s: ...\n", m.Name, rParams(m.Params), rAttrs(m.A))
 			} else {
-				fmt.Fprintf(sb, "    <-> %s%s:\n", m.Name, rParams(m.Params))
+				fmt.Fprintf(sb, "    <-> %s%s%s:\n", m.Name, rParams(m.Params), rAttrs(m.A))
 				rStmts(sb, "        ", m.Body)
 			}
 		case "rest":
 			rRest(sb, 1, m.Rest)
+		case "view":
+			// the listener keeps a view under its source spelling (no un-escaping): never re-spelled
+			colon := ""
+			if len(m.Annos) > 0 {
+				colon = ":"
+			}
+			fmt.Fprintf(sb, "    !view %s%s -> %s [~abstract]%s\n", m.Name, strings.TrimPrefix(rParams(m.Params), " "), m.Ty, colon)
+			for _, a := range m.Annos {
+				rAnno(sb, "        ", a)
+			}
 		case "mixin":
 			fmt.Fprintf(sb, "    -|> %s\n", strings.Join(spellAll(m.Target), " :: "))
 		case "sub":
@@ -826,6 +842,14 @@ func diff(c *common.Ctx, split, joined *sysl.Module, l, jl Layout) (string, stri
 			c.Hist("mixin-order-differs-with-block-order(accepted)")
 			s.Mixin2 = j.Mixin2
 		}
+		if a, b := keysOf(s.Views), keysOf(j.Views); fmt.Sprint(a) != fmt.Sprint(b) {
+			return "view-set", fmt.Sprintf("app %q: split form has views %q, joined form %q", an, a, b)
+		}
+		for _, vn := range keysOf(j.Views) {
+			if !proto.Equal(s.Views[vn], j.Views[vn]) {
+				return "view", fmt.Sprintf("app %q view %q differs: %v vs %v", an, vn, s.Views[vn], j.Views[vn])
+			}
+		}
 		if !proto.Equal(s, j) {
 			return "app-other", fmt.Sprintf("app %q differs outside attributes, types and endpoints", an)
 		}
@@ -886,8 +910,8 @@ type interner struct{ ids map[string]int }
 const mixinKey = "\x00mixins"
 
 func newInterner() *interner {
-	// the fixed ids of Merge/Model.v: patterns_key, rest_tag, pk_tag, dots_name, empty_str, mixin_key
-	return &interner{ids: map[string]int{"patterns": 1, "rest": 2, "pk": 3, "e:...": 4, "s:": 5, mixinKey: 6}}
+	// the fixed ids of Merge/Model.v: patterns_key, rest_tag, pk_tag, dots_name, empty_str, mixin_key, abstract_tag
+	return &interner{ids: map[string]int{"patterns": 1, "rest": 2, "pk": 3, "e:...": 4, "s:": 5, mixinKey: 6, "abstract": 7}}
 }
 func (t *interner) id(s string) string {
 	i, ok := t.ids[s]
@@ -1005,12 +1029,12 @@ func (t *interner) gRest(r *RNode) string {
 		}
 	}
 	for _, m := range r.Methods {
-		ms = append(ms, fmt.Sprintf("MD %s %s %s %s %s %s", t.id(m.Verb), t.gEntries(m.A), t.gAnnos(m.Annos), t.gParams("p:", m.Params), t.gParams("q:", m.Query), t.gStmts(m.Body)))
+		ms = append(ms, fmt.Sprintf("MDh %s %s %s %s %s %s", t.id(m.Verb), t.gEntries(m.A), t.gAnnos(m.Annos), t.gParams("p:", m.Params), t.gParams("q:", m.Query), t.gStmts(m.Body)))
 	}
 	for _, s := range r.Subs {
 		ss = append(ss, t.gRest(s))
 	}
-	return fmt.Sprintf("RN %s [%s] [%s] [%s]", t.list(segs), strings.Join(vars, ";"), strings.Join(ms, ";"), strings.Join(ss, ";"))
+	return fmt.Sprintf("RN %s [%s] %s %s [%s] [%s]", t.list(segs), strings.Join(vars, ";"), t.gEntries(r.A), t.gAnnos(r.Annos), strings.Join(ms, ";"), strings.Join(ss, ";"))
 }
 
 // the spelling of a field type as the projection names it (see projType)
@@ -1055,7 +1079,13 @@ func (t *interner) gMember(m Member) string {
 	case "ep":
 		return fmt.Sprintf("MP %s %s %s %s %s", t.id("e:"+m.Name), t.gEntries(m.A), t.gAnnos(m.Annos), t.gParams("p:", m.Params), t.gStmts(m.Body))
 	case "event":
-		return fmt.Sprintf("MV %s %s %s", t.id("e:"+m.Name), t.gParams("p:", m.Params), t.gStmts(m.Body))
+		return fmt.Sprintf("MV %s %s %s %s", t.id("e:"+m.Name), t.gEntries(m.A), t.gParams("p:", m.Params), t.gStmts(m.Body))
+	case "view":
+		var ps []string
+		for _, p := range m.Params {
+			ps = append(ps, p.Name+":"+tySpelling(p.Ty))
+		}
+		return fmt.Sprintf("MVw %s %s %s", t.id("v:"+m.Name), t.gAnnos(m.Annos), t.id("sig:("+strings.Join(ps, ",")+")->"+tySpelling(m.Ty)))
 	case "mixin":
 		return "MX " + t.id(appId(m.Target))
 	case "sub":
@@ -1090,7 +1120,13 @@ func (t *interner) gLayout(l Layout) string {
 		}
 		fs = append(fs, fmt.Sprintf("(%s, (%s, [%s]))", t.id("f:"+f.Name), t.list(prefixed("f:", f.Imports)), strings.Join(bs, ";\n   ")))
 	}
-	return fmt.Sprintf("%s, [%s]", t.id("f:"+l.Root), strings.Join(fs, ";\n  "))
+	var pbs []string
+	for _, f := range l.Files {
+		if f.PB != "" {
+			pbs = append(pbs, "f:"+f.Name)
+		}
+	}
+	return fmt.Sprintf("%s, [%s], %s", t.id("f:"+l.Root), strings.Join(fs, ";\n  "), t.list(pbs))
 }
 func prefixed(p string, ss []string) []string {
 	o := make([]string, len(ss))
@@ -1255,6 +1291,26 @@ func (t *interner) gObs(m *sysl.Module) string {
 				// a kind the model does not speak about: shows as a mismatch
 				tys = append(tys, fmt.Sprintf("(%s, OE [(%s, VS %s)] [])", t.id(tn), t.id("?kind"), t.id(fmt.Sprintf("?%T", ty.Type))))
 			}
+		}
+		// views live in the model's type map under "v:" names
+		for _, vn := range keysOf(a.Views) {
+			v := a.Views[vn]
+			var ps []string
+			for _, p := range v.Param {
+				q := p.Name + ":" + projType(p.Type)
+				if p.GetType().GetOpt() {
+					q += "?"
+				}
+				ps = append(ps, q)
+			}
+			sig := "sig:(" + strings.Join(ps, ",") + ")->" + projType(v.RetType)
+			if v.RetType.GetOpt() {
+				sig += "?"
+			}
+			if v.Expr != nil || len(v.Views) > 0 {
+				sig += "+?expr" // only abstract views are modelled
+			}
+			tys = append(tys, fmt.Sprintf("(%s, OV %s %s)", t.id("v:"+vn), t.gOAttrs(v.Attrs), t.id(sig)))
 		}
 		var eps []string
 		for _, en := range keysOf(a.Endpoints) {
@@ -1440,6 +1496,12 @@ func (g gen) rest(apps [][]string, depth int, id *int) *RNode {
 		}
 		n.PSegs = append(n.PSegs, s)
 	}
+	if g.r.Chance(1, 3) { // `/path [attrs]:` - every method below inherits them
+		n.A = g.attrs([]string{"x", "z", "w"}, 2, 3)
+	}
+	if g.r.Chance(1, 5) {
+		n.Annos = g.annos(1+g.r.Intn(2), map[string]bool{})
+	}
 	perm := g.r.Intn(len(verbs))
 	nm := g.r.Intn(3)
 	if depth == 0 && nm == 0 {
@@ -1499,7 +1561,7 @@ func (g gen) spec(maxApps, maxMembers int) Spec {
 		if nm < 2 && g.r.Chance(4, 5) {
 			nm = 2 + g.r.Intn(2)
 		}
-		nt, ne, np, nv, nal, nu, rid := 0, 0, 0, 0, 0, 0, 0
+		nt, ne, np, nv, nal, nu, rid, nvw := 0, 0, 0, 0, 0, 0, 0, 0
 		appAnno := map[string]bool{}
 		for j := 0; j < nm; j++ {
 			switch k := g.r.Intn(20); {
@@ -1584,6 +1646,9 @@ func (g gen) spec(maxApps, maxMembers int) Spec {
 				if g.r.Chance(1, 4) {
 					m.Params = g.params(1)
 				}
+				if g.r.Chance(1, 3) {
+					m.A = g.attrs([]string{"x", "y"}, 2, 3)
+				}
 				a.Members = append(a.Members, m)
 			case k < 16:
 				a.Members = append(a.Members, Member{Kind: "rest", Rest: g.rest(names, g.r.Intn(3), &rid)})
@@ -1611,8 +1676,22 @@ func (g gen) spec(maxApps, maxMembers int) Spec {
 				}
 				a.Members = append(a.Members, m)
 				if pi >= 0 && g.r.Chance(2, 3) {
-					extra[pi] = append(extra[pi], Member{Kind: "event", Name: m.Name, Dots: true})
+					ev := Member{Kind: "event", Name: m.Name, Dots: true}
+					if g.r.Chance(1, 3) {
+						ev.A = g.attrs([]string{"x", "y"}, 2, 3)
+					}
+					extra[pi] = append(extra[pi], ev)
 				}
+			case k == 19: // an abstract view
+				nvw++
+				m := Member{Kind: "view", Name: fmt.Sprintf("Vw%d", nvw), Params: g.params(2), Ty: prims[g.r.Intn(len(prims))]}
+				if len(m.Params) == 0 {
+					m.Params = []Param{{Name: "a1", Ty: "int"}}
+				}
+				if g.r.Chance(1, 3) {
+					m.Annos = g.annos(1, map[string]bool{})
+				}
+				a.Members = append(a.Members, m)
 			default:
 				if as := g.annos(1, appAnno); len(as) == 1 {
 					a.Members = append(a.Members, Member{Kind: "anno", Anno: &as[0]})
@@ -1638,7 +1717,21 @@ func (g gen) spec(maxApps, maxMembers int) Spec {
 // addDups: declarations met again (outside the headline theorem's hypotheses, inside those of the order-preserving
 // one): an annotation name set twice or named like a header attribute, an alias / union / enum declared twice, a field
 // declared twice (the second time without ~pk), an endpoint declared twice, a second subscriber of an event
-func (g gen) addDups(s Spec) Spec {
+func (g gen) addDups(s Spec) Spec { return g.addDupsK(s, false) }
+
+func isPrim(ty string) bool {
+	for _, p := range prims {
+		if p == ty {
+			return true
+		}
+	}
+	return false
+}
+
+// addDupsK: sameKind = a name set again keeps its kind of value (string / array).  mergo.Merge fails ("src and dst
+// must be of same type") or panics (reflect.Set) when a compiled module brings a string where the module built so far
+// has an array or the other way round; the model has no such outcome, so layouts with a compiled file avoid it.
+func (g gen) addDupsK(s Spec, sameKind bool) Spec {
 	for ai := range s.Apps {
 		a := &s.Apps[ai]
 		ms := append([]Member{}, a.Members...)
@@ -1649,12 +1742,16 @@ func (g gen) addDups(s Spec) Spec {
 			switch m.Kind {
 			case "anno":
 				c := Anno{K: m.Anno.K, V: fmt.Sprintf("again %d", g.r.Intn(3))}
-				if g.r.Chance(1, 3) {
+				if arr := g.r.Chance(1, 3); (arr && !sameKind) || (sameKind && m.Anno.IsArr) {
 					c = Anno{K: m.Anno.K, IsArr: true, Arr: g.strs("h", 1+g.r.Intn(2))}
 				}
 				ms = append(ms, Member{Kind: "anno", Anno: &c})
 			case "alias":
-				ms = append(ms, Member{Kind: "alias", Name: m.Name, Ty: "bool"})
+				ty := "bool"
+				if sameKind && !isPrim(m.Ty) {
+					ty = m.Ty // a reference met again as a primitive is one more "src and dst must be of same type"
+				}
+				ms = append(ms, Member{Kind: "alias", Name: m.Name, Ty: ty})
 			case "union":
 				ms = append(ms, Member{Kind: "union", Name: m.Name, Alts: []string{"date"}})
 			case "enum":
@@ -1670,12 +1767,20 @@ func (g gen) addDups(s Spec) Spec {
 				ms = append(ms, c)
 			case "mixin":
 				ms = append(ms, m)
+			case "view": // declared again: the view is replaced
+				c := m
+				c.Annos, c.Ty = nil, "bool"
+				ms = append(ms, c)
 			}
 		}
 		for mi, m := range ms {
 			if (m.Kind == "type" || m.Kind == "table") && len(m.Fields) > 0 && g.r.Chance(1, 3) {
 				f := m.Fields[g.r.Intn(len(m.Fields))]
+				old := f.Ty
 				f.Ty, f.Opt, f.A = prims[g.r.Intn(len(prims))], g.r.Chance(1, 3), g.attrs([]string{"x", "z"}, 2, 2)
+				if sameKind && !isPrim(old) {
+					f.Ty = old
+				}
 				ms[mi].Fields = append(append([]Field{}, m.Fields...), f)
 				ms[mi].Annos = append(append([]Anno{}, m.Annos...), Anno{K: "desc", V: "by annotation"}, Anno{K: "note", V: "n1"}, Anno{K: "note", V: "n2"})
 			}
@@ -1838,7 +1943,9 @@ func (g gen) split(s Spec, o splitOpts) Layout {
 				}
 				pieces = append(pieces, frs...)
 			case m.Kind == "rest" && o.splitFields && len(m.Rest.Methods)+len(m.Rest.Subs) >= 2 && g.r.Chance(1, 2):
-				r1, r2 := &RNode{Segs: m.Rest.Segs, PSegs: m.Rest.PSegs}, &RNode{Segs: m.Rest.Segs, PSegs: m.Rest.PSegs}
+				// the attributes and annotations of the root path are not members: both halves repeat them
+				r1 := &RNode{Segs: m.Rest.Segs, PSegs: m.Rest.PSegs, A: m.Rest.A, Annos: m.Rest.Annos}
+				r2 := &RNode{Segs: m.Rest.Segs, PSegs: m.Rest.PSegs, A: m.Rest.A, Annos: m.Rest.Annos}
 				n := 0
 				total := len(m.Rest.Methods) + len(m.Rest.Subs)
 				first := g.r.Intn(total) // this child goes to r1, the next to r2, the others at random
@@ -2175,7 +2282,7 @@ func (g gen) hostile(s Spec) Layout {
 						c.Body = g.body([][]string{b.Parts}, 1)
 						if g.r.Chance(1, 3) {
 							if c.Kind == "ep" {
-								c.Kind, c.A = "event", Attrs{}
+								c.Kind, c.A = "event", g.attrs([]string{"x", "z"}, 1, 2) // an event's attributes REPLACE the endpoint's
 							} else {
 								c.Kind = "ep"
 							}
@@ -2270,6 +2377,37 @@ func corpusCases() []replay {
 				{Verb: "PUT", Params: []Param{{Name: "b", Ty: "T1"}}, Annos: []Anno{{K: "patterns", IsArr: true, Arr: []string{"extra"}}}, Body: []Stmt{{Kind: 0, Text: "step2"}}}}}}}},
 				Block{Parts: app, Members: []Member{{Kind: "rest", Sp: 0, Rest: &RNode{PSegs: []Seg{{Name: "items"}, {Name: "id", Ty: "int"}}, Sp: 2, Methods: []Method{
 					{Verb: "GET", Query: []Param{{Name: "q", Ty: "string", Opt: true}}, Body: []Stmt{{Kind: 0, Text: "step1"}}}}}}}})},
+		// round 3, second pass: an event with attributes that a subscription in an EARLIER file has already created;
+		// a REST path with attributes and an annotation split at the root over two files; views in two blocks
+		{Note: "event attributes after a subscription, rest path attributes split at the root, views in two blocks",
+			Joined: one(Block{Parts: app, Members: []Member{
+				{Kind: "sub", Target: []string{"Pub"}, Name: "Evt", Body: []Stmt{{Kind: 0, Text: "step1"}}},
+				{Kind: "rest", Rest: &RNode{PSegs: []Seg{{Name: "items"}}, A: Attrs{Tags: []string{"x"}, NV: []NV{{"owner", "me"}}}, Annos: []Anno{{K: "team", V: "t"}},
+					Methods: []Method{{Verb: "GET", Body: []Stmt{{Kind: 0, Text: "step1"}}}},
+					Subs:    []*RNode{{PSegs: []Seg{{Name: "id", Ty: "int"}}, A: Attrs{Tags: []string{"z"}}, Methods: []Method{{Verb: "PUT", A: Attrs{Tags: []string{"y"}}, Body: []Stmt{{Kind: 0, Text: "step2"}}}}}}}},
+				{Kind: "view", Name: "V1", Params: []Param{{Name: "a", Ty: "int"}}, Ty: "string"},
+				{Kind: "view", Name: "V2", Params: []Param{{Name: "a", Ty: "T1"}, {Name: "b", Ty: "bool"}}, Ty: "int", Annos: []Anno{{K: "note", V: "n1"}}}}},
+				Block{Parts: []string{"Pub"}, Members: []Member{{Kind: "event", Name: "Evt", Dots: true, A: Attrs{Tags: []string{"y"}, NV: []NV{{"desc", "d"}}}}}}),
+			Split: Layout{Root: "root.sysl", Files: []File{
+				{Name: "root.sysl", Imports: []string{"f1.sysl"}, Blocks: []Block{
+					{Parts: app, Members: []Member{
+						{Kind: "sub", Target: []string{"Pub"}, Name: "Evt", Body: []Stmt{{Kind: 0, Text: "step1"}}},
+						{Kind: "view", Name: "V2", Params: []Param{{Name: "a", Ty: "T1"}, {Name: "b", Ty: "bool"}}, Ty: "int", Annos: []Anno{{K: "note", V: "n1"}}},
+						{Kind: "rest", Rest: &RNode{PSegs: []Seg{{Name: "items"}}, A: Attrs{Tags: []string{"x"}, NV: []NV{{"owner", "me"}}}, Annos: []Anno{{K: "team", V: "t"}},
+							Subs: []*RNode{{PSegs: []Seg{{Name: "id", Ty: "int"}}, A: Attrs{Tags: []string{"z"}}, Methods: []Method{{Verb: "PUT", A: Attrs{Tags: []string{"y"}}, Body: []Stmt{{Kind: 0, Text: "step2"}}}}}}}}}}}},
+				{Name: "f1.sysl", Blocks: []Block{
+					{Parts: []string{"Pub"}, Members: []Member{{Kind: "event", Name: "Evt", Dots: true, A: Attrs{Tags: []string{"y"}, NV: []NV{{"desc", "d"}}}}}},
+					{Parts: app, Members: []Member{
+						{Kind: "rest", Rest: &RNode{PSegs: []Seg{{Name: "items"}}, A: Attrs{Tags: []string{"x"}, NV: []NV{{"owner", "me"}}}, Annos: []Anno{{K: "team", V: "t"}},
+							Methods: []Method{{Verb: "GET", Body: []Stmt{{Kind: 0, Text: "step1"}}}}}},
+						{Kind: "view", Name: "V1", Params: []Param{{Name: "a", Ty: "int"}}, Ty: "string"}}}}}}}},
+		// a table whose fields are split between Sysl text and a compiled module, all key fields in the compiled one
+		// (C04_pb_hypotheses_met_split_table); the other way round is the known finding pb-import:pk-split-across-blocks
+		{Note: "table split between root.sysl and a compiled module, key fields in the module",
+			Joined: one(Block{Parts: app, Members: []Member{tbl(cc, a, b)}}),
+			Split: Layout{Root: "root.sysl", Files: []File{
+				{Name: "root.sysl", Imports: []string{"f1.pb"}, Blocks: []Block{{Parts: app, Members: []Member{tbl(cc)}}}},
+				{Name: "f1.pb", PB: "pb", Blocks: []Block{{Parts: app, Members: []Member{tbl(a, b)}}}}}}},
 		// the same names spelled with and without %XX: a table with key fields over two blocks, an enum, the application
 		{Note: "literal and escaped spellings of one name",
 			Joined: one(Block{Parts: []string{"My-App"}, Members: []Member{{Kind: "table", Name: "Order-Line", Fields: []Field{{Name: "k-1", Ty: "int", A: pk}, {Name: "k-2", Ty: "int", A: pk}}},
@@ -2398,12 +2536,12 @@ Local Open Scope positive_scope.`
 	}
 	// oracle only (postProcess / mergo are outside the model): mixed-in applications WITH types, and layouts in which
 	// an imported file is handed over as a compiled module
-	nmix, npb := 30, 40
+	nmix, npb, npbh := 30, 40, 70
 	if c.Thorough() {
-		nmix, npb = 400, 600
+		nmix, npb, npbh = 400, 600, 500
 	}
 	if c.Search {
-		nmix, npb = nmix*2, npb*2
+		nmix, npb, npbh = nmix*2, npb*2, 0
 	}
 	for i := 0; i < nmix; i++ {
 		s := g.mixTypes(g.spec(2, 5))
@@ -2473,10 +2611,18 @@ Local Open Scope positive_scope.`
 		l := g.hostile(g.spec(2, 5))
 		jobs = append(jobs, job{"hostile", replay{Split: l, Joined: l, Note: "hostile layout (correspondence only)"}, false})
 	}
+	// declarations met again on both sides of a compiled module (what mergo keeps / fills; correspondence only)
+	for i := 0; i < npbh; i++ {
+		l, ok := g.withPB(g.split(g.addDupsK(g.spec(2, 5), true), splitOpts{maxBlocks: 4, maxFiles: 4, splitFields: true, shape: 1 + g.r.Intn(2)}))
+		if !ok {
+			continue
+		}
+		jobs = append(jobs, job{"pbhostile", replay{Split: l, Joined: l, Note: "hostile layout with a compiled module (correspondence only)"}, false})
+	}
 	var ls []Layout
 	for _, j := range jobs {
 		ls = append(ls, j.rp.Split)
-		if j.stream != "hostile" {
+		if j.stream != "hostile" && j.stream != "pbhostile" {
 			ls = append(ls, j.rp.Joined)
 		}
 	}
@@ -2487,14 +2633,14 @@ Local Open Scope positive_scope.`
 		k++
 		c.Count(texts(j.rp.Split), stats(c, j.rp.Split))
 		c.Hist("stream:" + j.stream)
-		if j.stream == "hostile" {
+		if j.stream == "hostile" || j.stream == "pbhostile" {
 			cs.Add(caseTerm(j.rp.Split, sm.m), j.rp)
 			continue
 		}
 		jm := res[k]
 		k++
 		judge(c, j.rp, sm.m, jm.m, sm.err, jm.err)
-		if j.stream == "mixtypes" || j.stream == "pbimport" {
+		if j.stream == "mixtypes" {
 			continue // judged by the oracle only
 		}
 		cs.Add(caseTerm(j.rp.Split, sm.m), j.rp)
